@@ -361,7 +361,12 @@ _poll_add_(struct qb_loop *l,
 		*pe_pt = pe;
 		return 0;
 	} else {
-		pe->state = QB_POLL_ENTRY_EMPTY;
+		/*
+		 * Forget the descriptor number as well: qb_loop_poll_del()
+		 * and qb_loop_poll_mod() find entries by it and would stop
+		 * at this slot instead of the entry that really watches it.
+		 */
+		_poll_entry_empty_(pe);
 		return res;
 	}
 }
